@@ -130,6 +130,14 @@ def run(res, rng, tier, model_ok, replay=None):
                 mode = rng.choice(["st", "rd", "hc"])
                 line, exp, _ = gen.vcd_case(rng, mode, sigs, steps, imp, strip_end=(rng.random() < 0.3))
                 cases.append({"line": line, "expect": exp, "key": nontrivial_key(line, steps, imp), "klass": "vcd-small-" + mode, "pred": monitor})
+        # files that end directly after a time stamp token (no trailing blank): the time step still counts
+        for mode in ("st", "rd", "hc", "rb"):
+            for k in range(3):
+                sigs, steps, imp = gen.gen_history(rng, max_steps=6)
+                last_t = (steps[-1][0] if steps else 0) + 1 + k
+                steps = steps + [(last_t, [])]
+                line, exp, _ = gen.vcd_case(rng, mode, sigs, steps, imp, ws="plain", strip_end=True)
+                cases.append({"line": line, "expect": exp, "key": ("ends-after-time", mode, k), "klass": "vcd-ends-after-time", "pred": monitor})
     vcdfam.run_both(res, cases, "c02", model_ok, timeout=1200)
     res.samples = [c["line"][:300] for c in cases[-3:]] + [cases[0]["line"][:300]]
 
